@@ -1351,6 +1351,19 @@ impl<'a> Parser<'a> {
     let loop_depth = self.loop_depth;
     self.loop_depth = 0;
 
+    let fun = self.function_signature_and_body(name, type_params, block_return);
+
+    self.loop_depth = loop_depth;
+    fun
+  }
+
+  /// Parse a function's parameters and body
+  fn function_signature_and_body(
+    &mut self,
+    name: Token<'a>,
+    type_params: Vec<'a, TypeParam<'a>>,
+    block_return: BlockReturn,
+  ) -> ParseResult<Fun<'a>> {
     // parse function parameters
     let call_params = self.call_params(TokenKind::RightParen)?;
     let call_sig = self.call_signature(call_params, type_params)?;
@@ -1359,17 +1372,14 @@ impl<'a> Parser<'a> {
       return self.error_current(&format!("Expected '{{' after {} signature.", self.fun_kind));
     }
 
-    let fun = self.block(block_return).map(|body| {
+    self.block(block_return).map(|body| {
       Fun::new(
         Some(name),
         call_sig,
         self.table(),
         FunBody::Block(self.node(body)),
       )
-    });
-
-    self.loop_depth = loop_depth;
-    fun
+    })
   }
 
   /// Parse a method declaration and body
